@@ -442,3 +442,12 @@ func equalInfo(a, b Info) bool {
 	}
 	return true
 }
+
+// Load installs a secret wholesale (golden fixtures).
+func (d *DB) Load(name string, versions map[uint32][]byte, active, latest uint32) {
+	s := &secret{versions: map[uint32][]byte{}, active: active, latest: latest}
+	for v, b := range versions {
+		s.versions[v] = append([]byte{}, b...)
+	}
+	d.m[name] = s
+}
